@@ -41,6 +41,14 @@ struct SchedulePlacedWrapper;
 DISPENSO_DLL_ACCESS void pushThreadTaskSet(TaskSetBase* tasks);
 DISPENSO_DLL_ACCESS void popThreadTaskSet();
 
+// A functor that is skipped (e.g. because its task set was canceled) is normally released by its
+// destructor.  OnceFunction has no destructor for its type-erased payload, so release it explicitly.
+template <typename F>
+inline void cleanupSkippedFunctor(F& /*f*/) {}
+inline void cleanupSkippedFunctor(OnceFunction& f) {
+  f.cleanupNotRun();
+}
+
 } // namespace detail
 
 DISPENSO_DLL_ACCESS TaskSetBase* parentTaskSet();
@@ -135,6 +143,8 @@ class TaskSetBase {
 #else
         f();
 #endif // __cpp_exceptions
+      } else {
+        detail::cleanupSkippedFunctor(f);
       }
       if (pushed) {
         detail::popThreadTaskSet();
@@ -164,6 +174,8 @@ class TaskSetBase {
 #else
         f();
 #endif // __cpp_exceptions
+      } else {
+        detail::cleanupSkippedFunctor(f);
       }
       if (pushed) {
         detail::popThreadTaskSet();
